@@ -830,7 +830,7 @@ class FuncVerifier(object):
         if isinstance(sl, ast.Tuple) and any(isinstance(e, ast.Slice) for e in sl.elts):
             self.write_region(base, av, sl, val, st, node)
             return
-        idx = self.index_list(sl, st)
+        idx = self.index_list(sl, st, av.shape)
         if len(idx) == 1 and isinstance(idx[0], IdxList):
             # fancy two-row assignment  a[array([p,q])] = <Gather>
             if not isinstance(val, Gather) or len(val.rows) != len(idx[0].items):
@@ -888,10 +888,15 @@ class FuncVerifier(object):
     def bounds(self, st, k, n, node):
         self.oblige(st, self.site(node, 'bounds'), z3.And(0 <= k, k < n), node)
 
-    def index_list(self, sl, st):
-        if isinstance(sl, ast.Tuple):
-            return [self.index_one(e, st) for e in sl.elts]
-        return [self.index_one(sl, st)]
+    def index_list(self, sl, st, shape=None):
+        elts = sl.elts if isinstance(sl, ast.Tuple) else [sl]
+        out = [self.index_one(e, st) for e in elts]
+        if shape is not None:
+            # a[-e]: Python counts a (syntactically) negated index from the end; the bounds obligation is then 0 <= len - e < len
+            for i_, e in enumerate(elts):
+                if isinstance(e, ast.UnaryOp) and isinstance(e.op, ast.USub) and i_ < len(shape) and is_z3(out[i_]):
+                    out[i_] = out[i_] + shape[i_]
+        return out
 
     @staticmethod
     def is_row_slice(sl):
@@ -1690,7 +1695,7 @@ class FuncVerifier(object):
             return st.alloc(AV(res, (ix.shape[0],) + tuple(av.shape[1:]), av.elem))
         if isinstance(v, (Ref, View)):
             av = self.deref(v, st)
-            idx = self.index_list(sl, st)
+            idx = self.index_list(sl, st, av.shape)
             if len(idx) == 1 and isinstance(idx[0], IdxList):
                 rows = []
                 for k in idx[0].items:
@@ -2200,6 +2205,10 @@ class FuncVerifier(object):
             if isinstance(v, Ref) and isinstance(st.heap[v.loc], AV) and st.heap[v.loc].elem == 'strc':
                 av = st.heap[v.loc]
                 return st.alloc(AV(av.term, av.shape, 'char'))      # list(<str>): the list of its characters
+            if isinstance(v, (Ref, View)) and not (isinstance(v, Ref) and not isinstance(st.heap[v.loc], AV)) \
+                    and self.deref(v, st).ndim == 1 and self.deref(v, st).elem == 'int':
+                av = self.deref(v, st)
+                return st.alloc(AV(av.term, av.shape, 'int'))       # list(<1-D integer array>): a new sequence of the same integers
             raise OutOfFragment('list() of this value', n)
         if name == 'max' and len(n.args) == 1 and not n.keywords:
             v = self.pev(n.args[0], st)
@@ -2288,6 +2297,9 @@ class FuncVerifier(object):
                 return z3.IntVal(len(v))
         if name == 'int' and len(args) == 1 and is_z3(args[0]) and z3.is_int(args[0]):
             return args[0]
+        if name == 'int' and len(args) == 1 and is_z3(args[0]) and z3.is_real(args[0]):
+            x_ = args[0]
+            return z3.If(x_ >= 0, z3.ToInt(x_), -z3.ToInt(-x_))      # int() of a float truncates toward zero
         if name == 'reversed' or name == 'range':
             raise OutOfFragment('%s outside a for header' % name, n)
         raise OutOfFragment('builtin %s' % name, n)
@@ -2626,6 +2638,9 @@ class FuncVerifier(object):
         heap_pre = dict(st.heap)
         st.snaps = dict(st.snaps)
         st.snaps[site + '.pre'] = (dict(st.env), heap_pre)          # ghost code may refer to at('call:<f>#<k>.pre', e)
+        if not self.inline_depth and (site + '.before') in self.c.hints:
+            # ghost code just before the call: the evaluated arguments are visible under the callee's parameter names, prefixed `arg_`
+            self.apply_hints(st, self.c.hints[site + '.before'], site + '.before', extra={'arg_' + p_: v_ for p_, v_ in env.items()})
         spre = SpecEval(self.lib.theory, env, heap_pre, env, heap_pre, self.lib.preds)
         for k, r in enumerate(callee.requires):
             self.oblige(st, '%s.pre%d' % (site, k), spre.ev_bool(r), n, note=r)
